@@ -133,6 +133,63 @@ def py_oracle(e, lab, answers, modes):
                 if any(pos.get(c, 10**9) > pos[x] for c in x.ufl_operands):
                     bad.append("unique_post_traversal yields a user before one of its operands")
                     break
+    # a visited set owned by the caller and shared by several traversals (the pattern of map_expr_dags): the second traversal yields
+    # exactly the nodes the first one did not, and the set ends up holding every node
+    from ufl.corealg.traversal import cutoff_unique_post_traversal
+    from ufl.core.expr import Expr
+    if e.ufl_operands:
+        first = e.ufl_operands[-1]
+        for name, fn in (("unique_post_traversal", unique_post_traversal),
+                         ("cutoff_unique_post_traversal", lambda x, v: cutoff_unique_post_traversal(x, [False] * Expr._ufl_num_typecodes_, v))):
+            shared = set()
+            s1 = list(fn(first, shared))
+            s2 = list(fn(e, shared))
+            if set(s1) != set(pre_traversal(first)):
+                bad.append("%s with a caller-supplied visited set misses nodes of the first expression" % name)
+            if set(s2) != distinct - set(s1) or len(s2) != len(set(s2)):
+                bad.append("%s with a caller-supplied visited set shared by two traversals yields nodes of the first traversal again (or misses new ones)" % name)
+            if shared != distinct:
+                bad.append("%s does not record the visited nodes in the caller's set" % name)
+    # DAGTraverser.postorder handlers with keyword arguments: the context given at the root reaches every node
+    from ufl.corealg.dag_traverser import DAGTraverser
+    from ufl.core.operator import Operator
+    from ufl.core.terminal import Terminal
+    from functools import singledispatchmethod
+
+    class TP(DAGTraverser):
+        @singledispatchmethod
+        def process(self, o, **kw):
+            raise AssertionError
+
+        @process.register(Expr)
+        @DAGTraverser.postorder
+        def _(self, o, *ops, **kw):
+            return "<%d|%s%s>" % (lab.of(o), kw.get("scale", "-"), "".join(" " + x for x in ops))
+
+    class TC(DAGTraverser):
+        @singledispatchmethod
+        def process(self, o, **kw):
+            raise AssertionError
+
+        @process.register(Operator)
+        @DAGTraverser.postorder_only_children([0])
+        def _(self, o, *ops, **kw):
+            return "<%d|%s%s>" % (lab.of(o), kw.get("scale", "-"), "".join(" " + x for x in ops))
+
+        @process.register(Terminal)
+        def _(self, o, **kw):
+            return "<%d|%s>" % (lab.of(o), kw.get("scale", "-"))
+
+    def recp(o, sc, only0):
+        ops = o.ufl_operands[:1] if only0 else o.ufl_operands
+        return "<%d|%s%s>" % (lab.of(o), sc, "".join(" " + recp(c, sc, only0) for c in ops))
+    for sc in (3, "-"):
+        kw = {} if sc == "-" else {"scale": sc}
+        if TP()(e, **kw) != recp(e, sc, False):
+            bad.append("DAGTraverser.postorder: the result with keyword context %s differs from plain recursion over the tree" % (kw,))
+        if e.ufl_operands and TC()(e, **kw) != recp(e, sc, True):
+            bad.append("DAGTraverser.postorder_only_children: the result with keyword context %s differs from plain recursion over the tree" % (kw,))
+
     def rec(o):
         return "<%d%s>" % (lab.of(o), "".join(" " + rec(c) for c in o.ufl_operands))
     if answers["mapfn"][1] != rec(e):
